@@ -7,7 +7,26 @@ rewrite {import: [roots]} (import rewriting through the overlay), gomaxprocs, en
 
 SYNC_RW = {"sync": ["internal", "sdk"]}
 
+RAFT_ENV = {"BAO_RAFT_INITIAL_MMAP_SIZE": "4194304"}
+
 CHECKS = {
+    "C09": {
+        "level": "model_checking",
+        "rule": "every log up to the length bound over {6 plain writes, 5 transaction templates x every start index}; "
+                "for each log every batching, every restart position and every snapshot-install position (x every "
+                "already-applied prefix) is executed on real FSMs and compared with the serial value-based reference; "
+                "non-trivial = distinct (reference verdict vector, final state, length)",
+        "assumptions": [
+            "log entries are built the way an honest leader builds them (real createVerificationEntry / "
+            "createListVerificationEntry over the reference state at the start index; honest LowestActiveIndex)",
+            "bolt on tmpfs; hashicorp/raft itself is not in the loop (ApplyBatch/Restore/NewFSM are driven directly)",
+        ],
+        "units": [
+            {"name": "raftfsm", "pkg": "./internal/physical/raft", "run": "^TestVerifC09$", "env": RAFT_ENV,
+             "ulimit_kb": 64 * 1024 * 1024,
+             "shards": {"quick": 16, "thorough": 16}, "timeout": {"quick": 900, "thorough": 3000}},
+        ],
+    },
     "C13": {
         "level": "model_checking",
         "rule": "BFS over put/delete(/get) histories on a fixed key universe; a state is distinct by (stack, sorted "
@@ -23,12 +42,24 @@ CHECKS = {
         "units": [
             {"name": "storage", "pkg": "./internal/verifh/storage", "run": "^TestVerifC13$",
              "shards": {"quick": 16, "thorough": 16}, "timeout": {"quick": 600, "thorough": 3000}},
+            {"name": "raft", "pkg": "./internal/physical/raft", "run": "^TestVerifC13Raft$", "env": RAFT_ENV,
+             "ulimit_kb": 64 * 1024 * 1024,
+             "shards": {"quick": 4, "thorough": 4}, "timeout": {"quick": 900, "thorough": 3000}},
         ],
     },
 }
 
 # Per-property manifest text.
 META = {
+    "C09": {
+        "engines": "E0 E3",
+        "technique": "explicit-state enumeration of logs x batchings x restart/snapshot positions on real FSM replicas vs serial value-based reference",
+        "text": "Exhaustive within the bound: all logs of length <=3 (quick) / <=4 (thorough) over plain writes and transactions with "
+                "every start index, each applied under every batch partition, every restart position and every snapshot-install "
+                "position on real bolt-backed FSMs; verdicts and final bytes must equal a serial reference. The property is a "
+                "determinism claim over (log x batching x crash point), a finite product that can be enumerated completely for small logs.",
+        "note": "Trusted: reference model, honest-leader log construction. Not covered: hashicorp/raft internals, logs longer than the bound, chunked entries.",
+    },
     "C13": {
         "engines": "E0 E3",
         "technique": "explicit-state BFS over operation histories on the real backends, full read battery vs sorted-map reference in every state",
